@@ -291,6 +291,10 @@ class RuleMgr:
 
             except OSError as err:
                 if err.errno == errno.ENOENT:
+                    if not os.path.islink(link) or os.path.exists(link):
+                        # Not dangling: released since it was listed, and the
+                        # name may belong to another owner by now.
+                        continue
                     _LOGGER.warning('Reclaimed: %r', rule)
                     try:
                         os.unlink(link)
